@@ -53,8 +53,16 @@ HARNESSES = [
 ) + [
     H("c20_hexized_bytes_contract", functions=["num::hexized_bytes"], clauses=["for all usize: 16 lowercase hex digits whose value is n"], timeout=300, **P),
     H("c20_hexized_string_contract", functions=["num::hexized"], clauses=["for all usize: 16 ASCII bytes (from_utf8_unchecked sound)"], timeout=300, **P),
+    H("c20_itoa_value_below_100000", functions=["num::itoa"], clauses=["for n < 100000: digits only, canonical, decimal value == n (real function; cross-check of the Verus unit and its counterexample finder)"],
+      timeout=600, crate="ohkami_lib", tier="quick", strength="bounded", bound="n < 100000", crosscheck=True),
     H("c20_itoa_memory_safe_all_usize", functions=["num::itoa"], clauses=["for all usize: every ptr::write inside the 20-byte allocation, 1 <= len <= 20"], timeout=900, **P),
 ]
 
-TRUSTED = ["spec functions in harness/C20/time.rs (Gregorian leap rule, forward day-number formula, month lengths, RFC 9110 name tables)"]
+def pre_run(scratch, tier, logdir):
+    import itoa_verus
+    return [itoa_verus.run(scratch, logdir, H)]
+
+
+CHECKER_EXTRA = "; plus `verus itoa_extracted.rs --rlimit 400 --output-json --time` on the item cut from `cargo +nightly rustc -- -Zunpretty=expanded` (rules E1-E6, lib/itoa_verus.py)"
+TRUSTED = ["Verus 0.2026.09.13 / Z3 (itoa value clause); rustc's macro expander and the extraction rules E1-E6 (each asserts its match count)", "spec functions in harness/C20/time.rs (Gregorian leap rule, forward day-number formula, month lengths, RFC 9110 name tables)"]
 ASSUMPTIONS = ["timestamps range over [0, 253402300799] as the property states (kani::assume in the harnesses)"]
